@@ -60,7 +60,12 @@ def run(ctx):
         else:
             res = None
         if body is None:
+            # 1 fail-over in 4: the successor's host clock is behind the predecessor's (20 s ... 2 h)
+            h.successor_clock_behind = ctx.case_rng(ctx.case_index, 'skew%d' % h.cycles).choice([0, 0, 0, 0, 0, 0, 20, 1500, 7200])
+            if h.successor_clock_behind:
+                ctx.count('failovers_to_a_host_whose_clock_is_behind')
             res = crash.in_child(lambda: crash.restart_and_compare(h))
+            h.successor_clock_behind = 0
         ctx.count('restarts_compared')
         if res is None or 'harness_error' in res:
             ctx.count('child_error')
